@@ -5,6 +5,9 @@ Correspondence: EXHAUSTIVE table  (every public writing entry point found by ref
 IO / Output / SectionOutput and the I/O kinds of clikit.io) x verbosity x flags (None, 0..7)
 x quiet x ANSI/plain; observable = did bytes reach the stream.  Model = the Lean translation
 of `Output._may_write` (regenerated from the source on every run).
+
+The I/O facade additionally on I/Os whose two outputs carry DIFFERENT settings (SPLIT_KINDS): each of the eight
+entry points is gated by the output it writes to and leaves the other stream alone (model: Gate.facadeWrite).
 """
 import inspect
 import itertools
@@ -17,7 +20,8 @@ LEVEL_TEXT = ("The gate function is translated from the current source into Lean
               "(mayWrite_iff for ALL flag words and verbosity values, monotonicity in verbosity and quiet) are re-checked "
               "by the kernel against that translation; that every public writing entry point of IO/Output/SectionOutput "
               "goes through this gate is established by an exhaustive table (entry point x kind x verbosity x flags x "
-              "quiet x ANSI/plain) compared with the model and with the property statement; the Lean reading of "
+              "quiet x ANSI/plain, the I/O facade also with its two outputs configured differently: "
+              "facade_gated_by_own_output) compared with the model and with the property statement; the Lean reading of "
               "'lowest requested level' (Gate.lowest) and the declarative statement (Gate.shouldWrite) are compared with "
               "the oracle's own on every case.")
 LEVEL_NOTE = ("Trusted: Lean kernel + propext/Quot.sound/Classical.choice, the py2lean translator, the reflection "
@@ -26,11 +30,16 @@ LEAN_MODULES = ["Clikit.Props.C10"]
 REQUIRED_THEOREMS = ["Clikit.Props.C10.mayWrite_iff", "Clikit.Props.C10.mayWrite_mono_verbosity",
                      "Clikit.Props.C10.mayWrite_unquiet_mono", "Clikit.Props.C10.raising_never_removes",
                      "Clikit.Props.C10.lowest_is_least", "Clikit.Props.C10.quiet_writes_nothing",
-                     "Clikit.Props.C10.mayWrite_eq_shouldWrite"]
+                     "Clikit.Props.C10.mayWrite_eq_shouldWrite", "Clikit.Props.C10.facade_gated_by_own_output",
+                     "Clikit.Props.C10.facade_other_irrelevant", "Clikit.Props.C10.facade_entry_points"]
 RULE = ("exhaustive product: writing entry points found by reflection (public methods of IO, Output, "
         "SectionOutput whose name starts with write/error/overwrite) x object kind x verbosity {0,1,2,4} x "
-        "flags {None,0..7} x quiet x ANSI/plain; a case is non-trivial when the flags request a level or "
-        "quiet is on; distinct = distinct (entry point, kind, verbosity, flags, quiet, ansi)")
+        "flags {None,0..7} x quiet x ANSI/plain; the eight entry points of the I/O facade also on I/Os whose TWO "
+        "OUTPUTS ARE CONFIGURED DIFFERENTLY (through io.output / io.error_output, pre-configured Output objects "
+        "handed to IO(...) / ConsoleIO(...), the outputs of a section I/O, facade setters followed by a setter of one "
+        "output) x settings of the other output (thorough: all 8; quick: other quiet flag, verbosity at the other end, "
+        "both; the last three kinds: both); a case is non-trivial when the flags request a level or quiet is on (on either output); distinct = "
+        "distinct (entry point, kind, verbosity, flags, quiet, ansi, settings of the other output)")
 TRUSTED_BASE = [
     "Lean 4.33 kernel; axioms propext, Classical.choice, Quot.sound only (audited per theorem on every run)",
     "tools/py2lean.py + tools/gen_lean.py: statement-by-statement translation of Output._may_write and the IOFlags constants",
@@ -39,6 +48,9 @@ TRUSTED_BASE = [
 ]
 ASSUMPTIONS = [
     "every writing entry point funnels through Output._may_write: checked exhaustively by the correspondence table, not proved",
+    "the I/O facade (Gate.facadeWrite: write* -> standard output, error* -> error output, each gated by the settings of "
+    "THAT output only) is a hand-written model compared with IO / BufferedIO / ConsoleIO on every combination of "
+    "differently configured outputs; an entry point must leave the stream of the other output untouched",
     "the statement is read per output object, against the quiet/verbosity THAT object reports (is_quiet(), verbosity): "
     "a section taken from an output whose settings were changed before or after is gated by what the section reports",
 ]
@@ -60,7 +72,12 @@ def _entry_points():
     # change afterwards (what a later write, overwrite or clear sends - text or cursor codes - is gated the same)
     # "section_of" / "section_after": quiet and verbosity are set on the OUTPUT the section is taken from, before /
     # after the section is created, and never on the section: the gate follows what the section itself reports
-    for cls, kinds in ((IO, ["io", "io_section"]), (Output, ["output", "error_output"]), (SectionOutput, ["section", "section2", "section_of", "section_after", "section_hist"])):
+    # SPLIT_KINDS: ONE I/O whose two outputs are configured DIFFERENTLY (each output has its own quiet flag and
+    # verbosity; `quiet`/`verbosity` of the case belong to the output the entry point writes to, `other_quiet`/
+    # `other_verbosity` to the other one): through the public accessors (io.output / io.error_output), by handing
+    # pre-configured Output objects to IO(...) / ConsoleIO(...), on the outputs of a section I/O, and by first
+    # setting both through the facade and then one output individually
+    for cls, kinds in ((IO, ["io", "io_section"] + SPLIT_KINDS), (Output, ["output", "error_output"]), (SectionOutput, ["section", "section2", "section_of", "section_after", "section_hist"])):
         for name, fn in inspect.getmembers(cls, predicate=inspect.isfunction):
             if name.startswith("_"):
                 continue
@@ -76,6 +93,21 @@ def _entry_points():
     return sorted(set(eps))
 
 
+SPLIT_KINDS = ["io_split", "io_ctor", "console_ctor", "io_section_split", "io_resplit"]
+
+
+def _others(tier, kind, quiet, v):
+    """settings of the OTHER output of a split I/O: everything in the thorough tier; in the quick tier the three
+    ways of differing from the written output (quiet flag, verbosity at the opposite end, both) for the accessor
+    and constructor kinds, 'both' for the rest"""
+    if tier != "quick":
+        return [(oq, ov) for oq in (False, True) for ov in VERBOSITIES]
+    far = 4 if v < 2 else 0
+    if kind not in ("io_split", "io_ctor"):
+        return [(not quiet, far)]
+    return [(not quiet, v), (quiet, far), (not quiet, far)]
+
+
 def generate(tier, rng):
     for (kind, name, has_flags) in _entry_points():
         for ansi in (False, True):
@@ -84,6 +116,11 @@ def generate(tier, rng):
                     for f in (FLAGS if has_flags else [None]):
                         if name == "clear" and not ansi:
                             continue        # without ANSI support clear() has nothing to send
+                        if kind in SPLIT_KINDS:
+                            for (oq, ov) in _others(tier, kind, quiet, v):
+                                yield {"kind": kind, "method": name, "ansi": ansi, "quiet": quiet, "verbosity": v,
+                                       "flags": f, "has_flags": has_flags, "other_quiet": oq, "other_verbosity": ov}
+                            continue
                         yield {"kind": kind, "method": name, "ansi": ansi, "quiet": quiet,
                                "verbosity": v, "flags": f, "has_flags": has_flags}
                         if "line" in name and kind != "section2":
@@ -104,10 +141,62 @@ def _make(case):
     return io
 
 
+def _fmt(case):
+    from clikit.formatter import AnsiFormatter, PlainFormatter
+    return AnsiFormatter(forced=True) if case["ansi"] else PlainFormatter()
+
+
+def _split(case):
+    """an I/O whose two outputs carry different settings -> (io, written output, other output, fetch written,
+    fetch other)"""
+    from clikit.api.io import IO, Input, Output
+    from clikit.io.buffered_io import BufferedIO
+    from clikit.io.console_io import ConsoleIO
+    from clikit.io.input_stream import StringInputStream
+    from clikit.io.output_stream import BufferedOutputStream
+    kind = case["kind"]
+    err = case["method"].startswith("error")
+    mine = (case["quiet"], case["verbosity"])
+    other = (case["other_quiet"], case["other_verbosity"])
+    std_cfg, err_cfg = (other, mine) if err else (mine, other)
+
+    def conf(out, cfg):
+        out.set_quiet(cfg[0])
+        out.set_verbosity(cfg[1])
+
+    if kind in ("io_ctor", "console_ctor"):
+        so, eo = BufferedOutputStream(), BufferedOutputStream()
+        std = Output(so, _fmt(case))
+        erro = Output(eo, _fmt(case))
+        conf(std, std_cfg)
+        conf(erro, err_cfg)
+        cls = IO if kind == "io_ctor" else ConsoleIO
+        io = cls(Input(StringInputStream("")), std, erro)
+        fo, fe = so.fetch, eo.fetch
+    else:
+        base = _make(case)
+        io = base.section() if kind == "io_section_split" else base
+        if kind == "io_resplit":
+            # both outputs through the facade first, then the written one on its own
+            io.set_quiet(other[0])
+            io.set_verbosity(other[1])
+            conf(io.error_output if err else io.output, mine)
+        else:
+            conf(io.output, std_cfg)
+            conf(io.error_output, err_cfg)
+        fo, fe = base.fetch_output, base.fetch_error
+    if err:
+        return io, io.error_output, io.output, fe, fo
+    return io, io.output, io.error_output, fo, fe
+
+
 def _target(case):
     """the object written to, with the case's settings applied the way its kind says"""
-    io = _make(case)
     kind = case["kind"]
+    if kind in SPLIT_KINDS:
+        io, written, _other, fetch, _fo = _split(case)
+        return io, io, None, fetch
+    io = _make(case)
     older = None
     if kind == "io":
         target = io
@@ -157,7 +246,18 @@ def _reported(target):
     return [bool(target.is_quiet()), int(target.verbosity)]
 
 
+def _run_split(case):
+    io, written, other, fetch, fetch_other = _split(case)
+    base, base_o = len(fetch()), len(fetch_other())
+    getattr(io, case["method"])("payload", flags=case["flags"])
+    out, out_o = fetch()[base:], fetch_other()[base_o:]
+    return {"wrote": bool(out), "contains_payload": "payload" in out, "reported": _reported(written),
+            "other_wrote": bool(out_o), "other_reported": _reported(other)}
+
+
 def run_impl(case):
+    if case["kind"] in SPLIT_KINDS:
+        return _run_split(case)
     io, target, older, fetch = _target(case)
     kind = case["kind"]
     fn = getattr(target, case["method"])
@@ -179,6 +279,14 @@ def run_impl(case):
 
 
 def model_requests(case):
+    if case["kind"] in SPLIT_KINDS:
+        _io, written, other, _f, _fo = _split(case)
+        (q, v), (oq, ov) = _reported(written), _reported(other)
+        err = case["method"].startswith("error")
+        std, erro = ((oq, ov), (q, v)) if err else ((q, v), (oq, ov))
+        return [{"m": "c10.gate", "quiet": q, "verbosity": v, "flags": case["flags"]},
+                {"m": "c10.facade", "method": case["method"], "flags": case["flags"],
+                 "std": {"quiet": std[0], "verbosity": std[1]}, "err": {"quiet": erro[0], "verbosity": erro[1]}}]
     q, v = _reported(_target(case)[1])
     return [{"m": "c10.gate", "quiet": q, "verbosity": v, "flags": case["flags"]}]
 
@@ -186,13 +294,21 @@ def model_requests(case):
 def model_obs(case, answers):
     # "lowest": the Lean reading of "the lowest level requested by the flags" (Gate.lowest, the right-hand side of
     # mayWrite_iff); "should": the declarative statement (Gate.shouldWrite, proved equal to the translated gate)
-    return {"wrote": answers[0]["may_write"], "should": answers[0]["should_write"], "lowest": answers[0]["lowest"]}
+    m = {"wrote": answers[0]["may_write"], "should": answers[0]["should_write"], "lowest": answers[0]["lowest"]}
+    if case["kind"] in SPLIT_KINDS:
+        # the facade model (Gate.facadeWrite): which of the two streams of the I/O receives the text
+        err = case["method"].startswith("error")
+        m["facade"] = {"written": answers[1]["err" if err else "std"], "other": answers[1]["std" if err else "err"]}
+    return m
 
 
 def impl_view(case, obs):
     # the implementation's behaviour must match the translated gate AND the declarative statement; the oracle's own
     # reading of "lowest requested level" must be the one the theorems use
-    return {"wrote": obs["wrote"], "should": obs["wrote"], "lowest": _lowest(case["flags"])}
+    v = {"wrote": obs["wrote"], "should": obs["wrote"], "lowest": _lowest(case["flags"])}
+    if case["kind"] in SPLIT_KINDS:
+        v["facade"] = {"written": obs["wrote"], "other": obs["other_wrote"]}
+    return v
 
 
 def _lowest(flags):
@@ -209,6 +325,15 @@ def oracle(case, obs):
     if case["kind"] not in ("section_of", "section_after") and [quiet, verbosity] != [case["quiet"], case["verbosity"]]:
         return "%s reports quiet=%s verbosity=%s after set_quiet(%s), set_verbosity(%s)" % (
             case["kind"], quiet, verbosity, case["quiet"], case["verbosity"])
+    if case["kind"] in SPLIT_KINDS:
+        # each output of the I/O keeps the settings given to IT, and an entry point of the facade touches only the
+        # stream of the output it writes to
+        if obs["other_reported"] != [case["other_quiet"], case["other_verbosity"]]:
+            return "%s: the other output reports quiet=%s verbosity=%s after being given quiet=%s verbosity=%s" % (
+                case["kind"], obs["other_reported"][0], obs["other_reported"][1], case["other_quiet"],
+                case["other_verbosity"])
+        if obs["other_wrote"]:
+            return "%s.%s wrote to the stream of the other output" % (case["kind"], case["method"])
     want = (not quiet) and verbosity >= _lowest(case["flags"])
     if obs["wrote"] != want:
         return "%s.%s(flags=%r) on an object reporting quiet=%s verbosity=%s: wrote=%s, required=%s" % (
@@ -219,9 +344,9 @@ def oracle(case, obs):
 
 
 def nontrivial_key(case, obs):
-    if case["quiet"] or _lowest(case["flags"]) > 0:
+    if case["quiet"] or _lowest(case["flags"]) > 0 or case.get("other_quiet"):
         return (case["kind"], case["method"], case["ansi"], case["quiet"], case["verbosity"], case["flags"],
-                case.get("text", "payload"))
+                case.get("text", "payload"), case.get("other_quiet"), case.get("other_verbosity"))
     return None
 
 
@@ -235,3 +360,9 @@ def neighbours(case):
             c = dict(case)
             c["verbosity"], c["flags"] = v, (f if case["has_flags"] else None)
             yield c
+    if case["kind"] in SPLIT_KINDS:
+        for oq in (False, True):
+            for ov in VERBOSITIES:
+                c = dict(case)
+                c["other_quiet"], c["other_verbosity"] = oq, ov
+                yield c
